@@ -139,7 +139,8 @@ class SplitPart:
         list_path = os.path.join(d, "list.tsv")
         with open(list_path, "w") as f:
             if case["header"]:
-                f.write("#readname\thaplotype" + ("\tphaseset\tchromosome" if case["fourcol"] else "") + "\n")
+                first = "#readname" if len(case["reads"]) % 2 else "# name"
+                f.write(first + "\thaplotype" + ("\tphaseset\tchromosome" if case["fourcol"] else "") + "\n")
             for n, hap, ps, chrom in case["entries"]:
                 f.write("%s\t%s" % (n, hap) + ("\t%d\t%s" % (ps, chrom) if case["fourcol"] else "") + "\n")
         opts = case["opts"]
